@@ -1525,6 +1525,6 @@ package graphql
 //@ func executePlannedSelection
 //@   at[C13,C01] call fieldsInOrder: assert arg0 == sp && sp.conditional && arg1 == eCtx.VariableValues
 //@   loop[C13,C01] 1 over fields
-//@   at[C13,C01] return: assert calls("fieldsInOrder") == 0 && sp != nil ==> fields == sp.fields
+//@   at[C13,C01] return: assert calls("fieldsInOrder") == 0 && sp != nil ==> fields == old(sp.fields)
 //@   at[C13,C01] return: assert calls("fieldsInOrder") == 1 ==> fields == lastresult("fieldsInOrder")
 //@   at[C13] return: assert !old(sp != nil && sp.conditional) ==> calls("fieldsInOrder") == 0
